@@ -156,6 +156,7 @@ func judge(out *pipe.Outcome, ix *pipe.Index) pipe.Verdict {
 	// (2) marked failed-by-force-stop, (3) no automatic restart before the user start
 	status, errTxt := "", ""
 	sawRunning := false
+	recoveringAt := -1
 	for i := fs; i < end; i++ {
 		e := &evs[i]
 		if e.Kind == rig.KCommit && e.Snap != nil {
@@ -166,8 +167,15 @@ func judge(out *pipe.Outcome, ix *pipe.Index) pipe.Verdict {
 			status, errTxt = st, e.Snap.StatusErr[sc.Topo.Pipeline]
 		}
 		if e.Kind == rig.KCommit && e.Snap != nil && e.Snap.Status[sc.Topo.Pipeline] == "Recovering" {
-			add("recovering-after-force-stop", "the pipeline entered Recovering after a force stop", i)
+			recoveringAt = i
 		}
+	}
+	// A run that was already failing when the force stop arrived may still write
+	// Recovering (its cleanup had classified the failure before the force stop was
+	// marked); what the property forbids is that this recovery goes anywhere: the
+	// pipeline must end failed-by-force-stop, not stay Recovering or come back.
+	if recoveringAt >= 0 && waited0(evs, fs) && status != "Degraded" {
+		add("recovering-after-force-stop", fmt.Sprintf("the pipeline entered Recovering after a force stop and is %q afterwards", status), recoveringAt)
 	}
 	if waited {
 		v.Stats["terminations_observed"]++
@@ -180,7 +188,22 @@ func judge(out *pipe.Outcome, ix *pipe.Index) pipe.Verdict {
 					break
 				}
 			}
-			if pre == "Running" || pre == "Recovering" {
+			// ... which also covers a run whose plugins were all torn down before the
+			// force stop was issued and of which only the status write was outstanding
+			open := map[string]bool{}
+			for i := 0; i < fs && i < len(evs); i++ {
+				switch evs[i].Kind {
+				case rig.KSrcOpen, rig.KDstOpen:
+					if evs[i].Err == "" {
+						open[fmt.Sprintf("%s#%d", evs[i].Comp, evs[i].Sess)] = true
+					}
+				case rig.KSrcTeardown, rig.KDstTeardown:
+					delete(open, fmt.Sprintf("%s#%d", evs[i].Comp, evs[i].Sess))
+				}
+			}
+			if len(open) == 0 {
+				v.Stats["force_stops_after_the_run_was_over"]++
+			} else if pre == "Running" || pre == "Recovering" {
 				add("not-marked-failed-by-force-stop", fmt.Sprintf("status after the force stop is %q (before: %q), expected Degraded", status, pre), fs)
 			}
 		} else if !strings.Contains(errTxt, "force stop") {
@@ -267,4 +290,14 @@ func init() {
 		Anchors:   []string{"pkg/lifecycle/stream/force_stop.go", "pkg/lifecycle/stream/source.go", "pkg/lifecycle/stream/destination.go", "pkg/lifecycle/stream/destination_acker.go", "pkg/lifecycle/stream/dlq.go", "pkg/lifecycle-poc/funnel/worker.go"},
 		Gen:       gen, Judge: judge, Hooks: hooks,
 	})
+}
+
+// waited0 reports whether a WaitPipeline call returned after log index fs.
+func waited0(evs []rig.Ev, fs int) bool {
+	for i := fs; i < len(evs); i++ {
+		if evs[i].Kind == rig.KCtlRet && evs[i].Op == "WaitPipeline" {
+			return true
+		}
+	}
+	return false
 }
